@@ -11,6 +11,10 @@ theorem readN_append (xs rest : Bytes) (p : Nat) :
     readN xs.length ⟨xs ++ rest, p⟩ = .ok (xs, ⟨rest, p + xs.length⟩) := by
   simp [readN]
 
+theorem readNCopy_append (xs rest : Bytes) (p : Nat) :
+    readNCopy xs.length ⟨xs ++ rest, p⟩ = .ok (xs, ⟨rest, p + xs.length⟩) := by
+  simp [readNCopy]
+
 theorem readUint_le (w n : Nat) (rest : Bytes) (p : Nat) :
     readUint false w ⟨leBytes w n ++ rest, p⟩ = .ok (n % 256 ^ w, ⟨rest, p + w⟩) := by
   unfold readUint
@@ -56,7 +60,7 @@ theorem readStr_enc {c : Cfg} (hc : V3 c) (s rest : Bytes) (p : Nat) (hs : s.len
       simp only [List.length_append, Int.toNat_natCast] at h2
       omega
     · simp only [checkAlloc, hc.b, Int.toNat_natCast]
-      exact hrn
+      exact readNCopy_append s rest (p + 8)
   · split
     · rename_i h1 h2; omega
     · simp only [Int.toNat_natCast]; exact hrn
@@ -128,7 +132,7 @@ theorem discardStr_enc {c : Cfg} (hc : V3 c) (s rest : Bytes) (p : Nat) (hs : s.
     have hnil : s = [] := List.eq_nil_of_length_eq_zero this
     subst hnil; simp
   · simp only [Int.toNat_natCast]
-    rw [readN_append s rest (p + 8)]
+    rw [readNCopy_append s rest (p + 8)]
 
 def encStrs (l : List Bytes) : Bytes := l.flatMap encStr
 def strsLen : List Bytes → Nat
@@ -621,7 +625,7 @@ theorem decode_encode (kvs : List (Bytes × KVal)) (ts : List TIn) (file : Bytes
   have hflen : file.length = H + (encData align ts H).length := by
     rw [hfile, List.length_append, ← hHd]
   rw [← hHd]
-  unfold decode
+  unfold decode decodeFrom
   simp only []
   rw [hfile, hhead]
   simp only [List.append_assoc]
@@ -630,6 +634,11 @@ theorem decode_encode (kvs : List (Bytes × KVal)) (ts : List TIn) (file : Bytes
     show (decide (magicLE = magicBE)) = false by decide]
   rw [readU32 3 (by decide)]
   simp only [show ¬ ((3 : Nat) = 1) by decide, ↓reduceIte]
+  rw [show ∀ (n : Nat) (rest : Bytes) (p : Nat), readUintIn false 8 (2 * 8) ⟨u64le n ++ (u64le kvs.length ++ rest), p⟩
+      = readUint false 8 ⟨u64le n ++ (u64le kvs.length ++ rest), p⟩ from by
+    intro n rest p; unfold readUintIn
+    simp only [List.length_append, u64le_length]
+    rw [if_pos (by omega)]]
   rw [readU64 _ hnt]
   simp only []
   rw [readU64 _ hnk]
